@@ -321,6 +321,9 @@ def calls_term(calls):
     return clist(out)
 
 
+SELFCHECK = {"corpus:augmented-add-on-a-list-takes-any-iterable"}
+
+
 def build_case(c):
     """-> dict with the Coq definitions for one harness object, or None with a reason."""
     cv = Conv()
@@ -471,6 +474,24 @@ def run(ctx):
                         % (c["run"]["outcome"], c["run"]["leaked"]),
                         {"src": c["src"], "opts": c["opts"], "calls": c.get("calls") or [],
                          "real": {k_: v for k_, v in c["run"].items() if k_ != "trace"}, "features": c.get("features")})
+        feats_c = c.get("features") or []
+        if c.get("run") and ("selfcheck" in feats_c or (feats_c and feats_c[0] in SELFCHECK)):
+            # programs that state a law of the specification about themselves (x += y on a list is
+            # x.extend(y): doc/spec.md, Augmented assignments): usable where Values.v has no model of a
+            # method (string.codepoints, bytes.elems ...).  They must finish, every "selfcheck" says True.
+            r_ = c["run"]
+            said = [t["args"] for t in r_["trace"] if t["args"] and t["args"][0] == '"selfcheck"']
+            begun = sum(1 for t in r_["trace"] if t["args"] and t["args"][0] == '"selfcheck-begin"')
+            incorpus = bool(feats_c) and feats_c[0] in SELFCHECK
+            # generated programs contain other statements that may fail legitimately: there the run must
+            # not fail between a "selfcheck-begin" and its "selfcheck" (the arguments cannot fail)
+            if any(a != "True" for t in said for a in t[1:]) or (r_["outcome"] == "error" and (incorpus or begun > len(said))):
+                corp = [f[7:] for f in feats_c if f.startswith("corpus:")]
+                ctx.finding(("corpus:" + corp[0]) if corp else "selfcheck:" + "+".join(f for f in feats_c if f in ("inplace-add-iterable",)),
+                            "a program checking a law of the specification on itself fails: outcome %s %s, selfcheck events %s"
+                            % (r_["outcome"], r_.get("errmsg"), said),
+                            {"src": c["src"], "opts": c["opts"], "calls": c.get("calls") or [],
+                             "real": {k_: v for k_, v in r_.items() if k_ != "trace"}, "features": feats_c})
         if k == "panic":
             ctx.finding("panic", "host panic while executing a generated program: %s" % c["run"].get("errmsg"), {"src": c["src"], "opts": c["opts"]})
         if k == "timeout":
@@ -1320,6 +1341,36 @@ x = [[1, 2, 3]]
 y = {"a": 1, "b": 2, "c": 3}
 for a, b in [y]:
     trace(a, b)
+"""),
+    ("big-integer-literal-and-string-of-its-digits-are-distinct-constants", ALLOFF, """
+s = "deadbeefcafebabe1234"
+n = 0xdeadbeefcafebabe1234
+def f():
+    a = 1051570404360395033547316
+    b = "1051570404360395033547316"
+    c = "deadbeefcafebabe1234"
+    return [a, b, c, 0xDEADBEEFCAFEBABE1234, a == n, c == s, "7", 7, "True", True]
+trace(s, n, f(), n + 1, s + "!")
+def g():
+    return ["ffffffffffffffffffff", 0xffffffffffffffffffff, "ffffffffffffffffffff"]
+trace(g(), -0xffffffffffffffffffff)
+""", [("f", []), ("g", [])]),
+    ("augmented-add-on-a-list-takes-any-iterable", ALLOFF, """
+def name_target(y):
+    x = [0]
+    alias = x
+    x += y
+    return (x, alias)
+def index_target(y):
+    x = [[0], 1]
+    x[0] += y
+    return x
+trace("selfcheck", name_target("ab".elems()) == ([0, "a", "b"], [0, "a", "b"]), name_target((1, 2)) == ([0, 1, 2], [0, 1, 2]))
+trace("selfcheck", name_target({"k": 1}) == ([0, "k"], [0, "k"]), name_target(range(2)) == ([0, 0, 1], [0, 0, 1]))
+trace("selfcheck", name_target("ab".codepoints()) == ([0, "a", "b"], [0, "a", "b"]))
+trace("selfcheck", index_target("ab".codepoint_ords()) == [[0, 97, 98], 1])
+trace("selfcheck", name_target(b"ab".elems()) == ([0, 97, 98], [0, 97, 98]))
+trace("selfcheck", name_target(enumerate(["p"])) == ([0, (0, "p")], [0, (0, "p")]), name_target(zip([1], [2])) == ([0, (1, 2)], [0, (1, 2)]))
 """),
     ("load-binds-file-locals", ALLOFF, """
 load("m.star", "a", bb="b")
